@@ -1,1 +1,9 @@
 import FlVerif.Drv.Leaf
+
+/-! Registry of driver command groups: one handler per group, tried in order (`none` = not mine / malformed). -/
+
+namespace Drv
+def handlers : List (List SExp → Option SExp) :=
+  [ leaf
+  ]
+end Drv
